@@ -14,7 +14,7 @@ func init() {
 		family{"K-read-loop", 5, famReadLoop},
 		family{"K-write-loop", 3, famWriteLoop},
 		family{"K-yield", 2, famYield},
-		family{"K-nested-coro", 4, famNestedCoro},
+		family{"K-nested-coro", 6, famNestedCoro},
 		family{"K-peek-skip", 4, famPeekSkip},
 		family{"K-copy", 4, famCopy},
 		family{"S-iterate", 7, famIterate},
@@ -233,6 +233,27 @@ func famNestedCoro(g *genctx, v int) *scen {
 		body = fmt.Sprintf("    while i < 3 {\n        j = (i ~mod* 7) ~mod+ 1\n        this.%s?(src: args.src)\n        this.%s ~mod+= j\n        i += 1\n    }", sub, acc)
 	case 3: // nested call inside an if inside the loop
 		body = fmt.Sprintf("    while i < 4 {\n        if (i & 1) == 0 {\n            this.%s?(src: args.src)\n        } else {\n            this.%s ~mod+= 1000\n        }\n        i += 1\n    }", sub, acc)
+	}
+	if v >= 4 {
+		// the callee takes a numeric argument and uses it after its own suspension
+		// points; the caller computes it from a local that is dead afterwards
+		// (v == 4: compound expression, v == 5: bare local)
+		arg := "(bias ~mod* 3) ~mod+ 1"
+		if v == 5 {
+			arg = "bias"
+		}
+		s := &scen{coro: true, features: []string{"coroutine", "nested-coroutine", "call-argument-liveness"}}
+		s.fields = []string{acc + " : base.u32"}
+		s.methods = []string{
+			fmt.Sprintf("pri func obj.%s?(src: base.io_reader, k: base.u32) {\n    var i : base.u32\n    var c : base.u32\n    while i < 3 {\n        c = args.src.read_u8_as_u32?()\n        this.%s = (this.%s ~mod* 31) ~mod+ (c ~mod+ args.k)\n        i += 1\n    }\n}", sub, acc, acc),
+			fmt.Sprintf("pub func obj.%s?(src: base.io_reader) {\n    var bias : base.u32\n    bias = args.src.read_u16le_as_u32?()\n    this.%s?(src: args.src, k: %s)\n}", m, sub, arg),
+			fmt.Sprintf("pub func obj.%s() base.u32 {\n    return this.%s\n}", g.n("getacc"), acc),
+		}
+		s.getters = []string{g.n("getacc")}
+		s.drive = func(r *rand.Rand) []Call {
+			return feedCalls(r, m, randBytes(r, 3+r.Intn(4)), true, false, 0, nil)
+		}
+		return s
 	}
 	s := &scen{coro: true, features: []string{"coroutine", "nested-coroutine", "=?"}}
 	s.consts = []string{fmt.Sprintf("pub status \"%s\"", bad)}
